@@ -9,7 +9,7 @@ Fixpoint val_eqb_refl (v : val) : val_eqb v v = true.
 Proof.
   destruct v as [z|s|l| |v]; simpl.
   - apply Z.eqb_refl.
-  - apply str_eqb_refl.
+  - destruct (_ || _); auto. apply str_eqb_refl.
   - induction l as [|a l IH]; auto. rewrite val_eqb_refl. simpl. exact IH.
   - reflexivity.
   - apply val_eqb_refl.
